@@ -120,7 +120,7 @@ async fn consume(client: awc::Client) -> String {
 
 async fn drive(input: &[u8], mode: Mode) -> Out {
     let conns: Rc<RefCell<Vec<ConnRec>>> = Rc::new(RefCell::new(Vec::new()));
-    let opts = IoOpts { read_alts: false, read_faults: false, write_alts: false, flush_alts: false, shutdown_alts: false, every_offset: false };
+    let opts = IoOpts { read_alts: false, read_faults: false, write_alts: false, flush_alts: false, shutdown_alts: false, every_offset: false, buffered: false };
     let svc = {
         let conns = conns.clone();
         actix_service::fn_service(move |info: ConnectInfo<awc::http::Uri>| {
